@@ -114,13 +114,14 @@ extern int    esl_abc_ValidateSeq(const ESL_ALPHABET *a, const char *seq, int64_
 
 
 #define esl_abc_CIsValid(a, c)       (isascii(c) && (a)->inmap[(int)c] < (a)->Kp)
-#define esl_abc_CIsResidue(a, c)     ((a)->inmap[(int)c] < (a)->K || ((a)->inmap[(int)c] > (a)->K && (a)->inmap[(int)c] < (a)->Kp-2))
-#define esl_abc_CIsCanonical(a, c)   ((a)->inmap[(int)c] < (a)->K)
-#define esl_abc_CIsGap(a, c)         ((a)->inmap[(int)c] == (a)->K)
-#define esl_abc_CIsDegenerate(a, c)  ((a)->inmap[(int)c] > (a)->K  && (a)->inmap[(int)c] < (a)->Kp-2)
-#define esl_abc_CIsUnknown(a, c)     ((a)->inmap[(int)c] == (a)->Kp-3)
-#define esl_abc_CIsNonresidue(a, c)  ((a)->inmap[(int)c] == (a)->Kp-2)
-#define esl_abc_CIsMissing(a, c)     ((a)->inmap[(int)c] == (a)->Kp-1)
+/* inmap[] has 128 entries: a char >= 0x80 (negative where char is signed) is in none of these classes */
+#define esl_abc_CIsResidue(a, c)     (isascii(c) && ((a)->inmap[(int)c] < (a)->K || ((a)->inmap[(int)c] > (a)->K && (a)->inmap[(int)c] < (a)->Kp-2)))
+#define esl_abc_CIsCanonical(a, c)   (isascii(c) && (a)->inmap[(int)c] < (a)->K)
+#define esl_abc_CIsGap(a, c)         (isascii(c) && (a)->inmap[(int)c] == (a)->K)
+#define esl_abc_CIsDegenerate(a, c)  (isascii(c) && (a)->inmap[(int)c] > (a)->K  && (a)->inmap[(int)c] < (a)->Kp-2)
+#define esl_abc_CIsUnknown(a, c)     (isascii(c) && (a)->inmap[(int)c] == (a)->Kp-3)
+#define esl_abc_CIsNonresidue(a, c)  (isascii(c) && (a)->inmap[(int)c] == (a)->Kp-2)
+#define esl_abc_CIsMissing(a, c)     (isascii(c) && (a)->inmap[(int)c] == (a)->Kp-1)
 #define esl_abc_CGetGap(a)           ((a)->sym[(a)->K])
 #define esl_abc_CGetUnknown(a)       ((a)->sym[(a)->Kp-3])
 #define esl_abc_CGetNonresidue(a)    ((a)->sym[(a)->Kp-2])
